@@ -4,7 +4,7 @@ import vcheck
 
 ID = "C15"
 LEVEL = "proof"
-COQ_TARGETS = ["Props/Properties_C15.vo", "Layout/GenCheck.vo", "Extract/ExtractLayout.vo"]
+COQ_TARGETS = ["Props/Properties_C15.vo", "Layout/GenCheck.vo", "Layout/Examples.vo", "Extract/ExtractLayout.vo"]
 PROPS_FILES = ["Props/Properties_C15.v"]
 RUNS = [dict(name="layout", harness="c15", driver="layout", model_ml="layout_model")]
 EXTRA_OBLIGATIONS = ["Layout/GenCheck.v:generated_fields_match (vm_compute over Gen/GenAccessors.v)",
@@ -15,7 +15,7 @@ _state = {}
 
 
 def _count(res):
-    return 120 if res is not None and res.tier == "thorough" else 24
+    return 60 if res is not None and res.tier == "thorough" else 14
 
 
 def generate(res):
@@ -50,14 +50,15 @@ def generate(res):
     kf = [k for k in vcheck.known_findings() if k.get("property") == ID and k.get("status") == "known"]
     import re
 
-    def report(sig, body):
+    def report(sig, body, name=""):
+        body += "\nreplay: build/c15/capnpc-go < build/c15/gen/%s/request.bin   (the request is rebuilt by genir on every run)" % name
         m = [k for k in kf if re.fullmatch(k["signature"], sig)]
         if m:
             res.known.append("%s: %s" % (sig, m[0].get("what", "")))
             return
         rp = vcheck.write_replay(ID, res.seed, re.sub(r"[^A-Za-z0-9]+", "_", sig)[:60],
                                  "# property C15, generator run, signature %s\n# %s\n" % (sig, body.replace("\n", "\n# ")))
-        res.violation(rp, "request=build/c15/gen/<entry> (CodeGeneratorRequest rebuilt by genir from the seed)")
+        res.violation(rp)
 
     for e in rep:
         src, name = e["source"], e["name"]
@@ -67,15 +68,15 @@ def generate(res):
                 continue  # stored requests the generator rejects with an error message (const.capnp: package "const"; go.capnp: no $import)
             kind = "panic" if "panic:" in e.get("gen_err", "") else "error"
             report("generator/%s/%s/%s" % (kind, src, tag if src == "probe" else "schema"),
-                   "the generator fails on a valid request (%s): %s" % (name, e.get("gen_err", "")))
+                   "the generator fails on a valid request (%s): %s" % (name, e.get("gen_err", "")), name)
             continue
         if e["determinism"] != "identical":
-            report("determinism/%s" % src, "%s: output differs between the 8 runs" % name)
+            report("determinism/%s" % src, "%s: output differs between the 8 runs" % name, name)
         if not e["translated"]:
-            report("translate/%s" % src, "%s: emitted accessor not understood by genir (fail closed): %s" % (name, e.get("trans_err", "")))
+            report("translate/%s" % src, "%s: emitted accessor not understood by genir (fail closed): %s" % (name, e.get("trans_err", "")), name)
         if e["compiles"] == "NO":
             report("compile/%s/%s" % (src, tag if src == "probe" else "schema"),
-                   "%s: the emitted package does not compile: %s" % (name, e.get("compile_err", "")))
+                   "%s: the emitted package does not compile: %s" % (name, e.get("compile_err", "")), name)
     return notes
 
 
@@ -92,8 +93,31 @@ def violates(run, case, impl, model):
 
 
 def post(res, stats, mismatches):
-    rep = _state.get("report") or []
-    res.cov_extra = rep
+    """When the kernel obligation of Layout/GenCheck.v fails: say WHICH emitted accessors differ from gen_accessor."""
+    vo = os.path.join(vcheck.COQ, "Layout", "GenCheck.vo")
+    src = os.path.join(vcheck.COQ, "Gen", "GenAccessors.vo")
+    if not os.path.exists(src) or (os.path.exists(vo) and os.path.getmtime(vo) >= os.path.getmtime(src)):
+        return
+    q = ("From CV Require Import Layout.Layout Gen.GenAccessors.\n"
+         "Definition badf := filter (fun p => negb (ir_eqb (snd p) (gen_accessor (fst p)))) fields.\n"
+         "Definition badn := filter (fun p => negb (nir_eqb (snd p) (gen_node (fst p)))) nodes.\n"
+         "Definition badw := filter (fun p => negb (CV.Layout.LayoutMain.field_wfb (fst p))) fields.\n"
+         "Eval vm_compute in (length badf, length badn, length badw).\n"
+         "Eval vm_compute in firstn 3 badf.\n"
+         "Eval vm_compute in map (fun p => gen_accessor (fst p)) (firstn 3 badf).\n"
+         "Eval vm_compute in firstn 3 badn.\n"
+         "Eval vm_compute in map (fun p => gen_node (fst p)) (firstn 3 badn).\n"
+         "Eval vm_compute in map fst (firstn 3 badw).\n")
+    q = q.replace("CV.Layout.LayoutMain.field_wfb", "field_wfb").replace(
+        "From CV Require Import Layout.Layout Gen.GenAccessors.", "From CV Require Import Layout.Layout Layout.LayoutMain Gen.GenAccessors.")
+    qp = os.path.join(WORK, "diag.v")
+    open(qp, "w").write(q)
+    rc, out = vcheck.sh(["coqc", "-Q", ".", "CV", "-o", os.path.join(WORK, "diag.vo"), qp], cwd=vcheck.COQ, timeout=600)
+    rp = vcheck.write_replay(ID, res.seed, "emitted_vs_model",
+                             "# Layout/GenCheck.v does not check: (emitted fields differing from gen_accessor, nodes differing from gen_node,\n"
+                             "# descriptors that are not field_wf), the first three of each with what the model expects:\n# "
+                             + out[-6000:].replace("\n", "\n# ") + "\n")
+    vcheck.log("note: emitted accessors that differ from the generator model are listed in " + rp)
 
 
 EXPLANATION = ("Theorems for ALL field descriptors (kind x offset x default x discriminant) and all struct contents about gen_accessor, "
